@@ -248,6 +248,10 @@ impl<'a> Http2Parser<'a> {
         let Some(stream_id) = self.find_primary_stream(&frames) else {
             return Ok(None);
         };
+        if !self.header_block_complete(stream_id, &frames) {
+            // HEADERS without END_HEADERS: the rest of the head is still to come
+            return Ok(None);
+        }
         let stream = self.build_stream(stream_id, &frames)?;
 
         let method = stream
@@ -330,6 +334,10 @@ impl<'a> Http2Parser<'a> {
         let Some(stream_id) = self.find_primary_stream(&frames) else {
             return Ok(None);
         };
+        if !self.header_block_complete(stream_id, &frames) {
+            // HEADERS without END_HEADERS: the rest of the head is still to come
+            return Ok(None);
+        }
         let stream = self.build_stream(stream_id, &frames)?;
 
         let status = stream
@@ -538,6 +546,29 @@ impl<'a> Http2Parser<'a> {
             }
         }
         None
+    }
+
+    /// Whether the header block opened by the stream's first HEADERS frame has ended, i.e. that
+    /// frame or one of the CONTINUATION frames following it carries END_HEADERS (RFC 7540 6.10).
+    /// Until then the head is incomplete and must not be reported.
+    fn header_block_complete(&self, stream_id: u32, frames: &[Http2Frame]) -> bool {
+        const END_HEADERS: u8 = 0x4;
+
+        let mut started = false;
+        for frame in frames.iter().filter(|f| f.stream_id == stream_id) {
+            let in_block = match frame.frame_type {
+                Http2FrameType::Headers if !started => {
+                    started = true;
+                    true
+                }
+                Http2FrameType::Continuation => started,
+                _ => false,
+            };
+            if in_block && frame.flags & END_HEADERS != 0 {
+                return true;
+            }
+        }
+        false
     }
 
     fn build_stream(
